@@ -22,6 +22,8 @@ EXPLANATION = (
 
 
 def run(ctx: Ctx) -> None:
+    from ..rules import order as _order_seq
+    _order_seq.rule_sequence_source(ctx, [("graphiq/circuit/circuit_dag.py", "CircuitDAG._slim_seq")])  # the noisy copy (assign_noise) replays the operations in application order
     from ..rules import placement as _placement
     _placement.rule_noise_placement(ctx)
     from ..rules import effects as _eff
